@@ -182,13 +182,31 @@ def _r07f(cx, repo):
     rb = [f for m, q, f in repo.functions({REL}) if f.name == "_read_branch"]
     cx.need(len(rb) == 1, "R07f", f"{REL}::_read_branch", "branch reader")
     rb = rb[0]
+    # private helpers expanded in place (the filing may have been moved into one)
+    from sa.inline import inlined
+    rb, _used_f = inlined(repo.modules[REL], rb, exclude=("_mk_rcommits",))
+    if _used_f:
+        cx.note(f"R07f: _read_branch analysed with {_used_f} expanded in place")
     # the list of numbers: second..third element of what _mk_rcommits returns, bound in the reader
     binds = [st for st in walk_local(rb) if isinstance(st, ast.Assign) and isinstance(st.value, ast.Call) and call_name(st.value) == "_mk_rcommits" and isinstance(st.targets[0], ast.Tuple)]
     cx.need(len(binds) == 1 and len(binds[0].targets[0].elts) == 4, "R07f", rb, "result of _mk_rcommits")
     nums = norm(binds[0].targets[0].elts[2])
     built = norm(binds[0].targets[0].elts[1])
     stores = [n for n in walk_local(rb) if isinstance(n, ast.Assign) and isinstance(n.targets[0], ast.Subscript) and is_name(n.targets[0].value, "bn_map")]
-    cx.at_least("R07f", "stores into the build-number map", len(stores), 2)
+    # what a store files: its value - or, when the value is the variable of a loop over `A if c else B`, one alternative per arm
+    # (`for b in (parents if new is None else (new,)): .. bn_map[..] = b` files the same two things as two stores do)
+    from sa.guards import expand_at
+
+    def filed_values(st):
+        v = st.value
+        if isinstance(v, ast.Name):
+            for l in enclosing_loops(st):
+                if isinstance(l, ast.For) and is_name(l.target, v.id):
+                    it = expand_at(l.iter, l)
+                    arms = [it.body, it.orelse] if isinstance(it, ast.IfExp) else [it]
+                    return [norm(a.elts[0]) if isinstance(a, (ast.Tuple, ast.List)) and len(a.elts) == 1 else "each of " + norm(a) for a in arms]
+        return [norm(v)]
+    cx.at_least("R07f", "stores into the build-number map", sum(len(filed_values(st)) for st in stores), 2)
     own = 0
     for st in stores:
         loops = enclosing_loops(st)
@@ -199,7 +217,7 @@ def _r07f(cx, repo):
         if ok:
             fs = [norm(e) for e, pol in facts(lp) if pol] + ["not " + norm(e) for e, pol in facts(lp) if not pol]
             ok = not any(nums in f and ("len(" in f or "[" in f) for f in fs)
-        own += norm(st.value) == built
+        own += built in filed_values(st)
         cx.ob("R07f", st, ok, f"filed under every number of `{nums}`, keyed by that number" if ok else
               f"the build is not filed under every element of `{nums}` (key `{norm(key)}`): a parent pinning another number of the same commit does not find the build, "
               "its pin move goes unreported and the component build is attributed to a later parent build")
